@@ -70,6 +70,8 @@ pub struct AggregateState {
     pub max_float: Option<f64>,
     /// SUM has seen a non-NULL number (SUM over nothing is NULL, not 0)
     pub sum_seen: bool,
+    pub min_text: Option<String>,
+    pub max_text: Option<String>,
 }
 
 impl AggregateState {
@@ -83,6 +85,8 @@ impl AggregateState {
             min_float: None,
             max_float: None,
             sum_seen: false,
+            min_text: None,
+            max_text: None,
         }
     }
 
@@ -145,6 +149,11 @@ impl AggregateState {
                         Value::Float(f) => {
                             self.min_float = Some(self.min_float.map_or(*f, |m| m.min(*f)));
                         }
+                        Value::Text(s) => {
+                            if self.min_text.as_deref().map_or(true, |m| s.as_ref() < m) {
+                                self.min_text = Some(s.to_string());
+                            }
+                        }
                         _ => {}
                     }
                 }
@@ -157,6 +166,11 @@ impl AggregateState {
                         }
                         Value::Float(f) => {
                             self.max_float = Some(self.max_float.map_or(*f, |m| m.max(*f)));
+                        }
+                        Value::Text(s) => {
+                            if self.max_text.as_deref().map_or(true, |m| s.as_ref() > m) {
+                                self.max_text = Some(s.to_string());
+                            }
                         }
                         _ => {}
                     }
@@ -194,6 +208,8 @@ impl AggregateState {
                     Value::Int(m)
                 } else if let Some(m) = self.min_float {
                     Value::Float(m)
+                } else if let Some(m) = &self.min_text {
+                    Value::Text(std::borrow::Cow::Owned(m.clone()))
                 } else {
                     Value::Null
                 }
@@ -203,6 +219,8 @@ impl AggregateState {
                     Value::Int(m)
                 } else if let Some(m) = self.max_float {
                     Value::Float(m)
+                } else if let Some(m) = &self.max_text {
+                    Value::Text(std::borrow::Cow::Owned(m.clone()))
                 } else {
                     Value::Null
                 }
